@@ -271,6 +271,9 @@ class PVLParser(object):
                     parsing = True
                 else:
                     return m
+            except (LexerError, ParseError):
+                # The hook started to consume tokens and found an error.
+                raise
             except Exception:
                 pass
 
@@ -360,6 +363,8 @@ class PVLParser(object):
                             )
                             if not keep_parsing:
                                 raise ve
+                        except (LexerError, ParseError):
+                            raise
                         except Exception:
                             raise ve
 
